@@ -470,6 +470,29 @@ def observable_rule(chk, src):
            line=fe.node.lineno, detail="entropy of a spectrum: normalise, drop zeros (0 ln 0 = 0), natural logarithm, minus sign")
 
 
+
+def entropy_gauge_rule(chk, src):
+    """bond singular values are listed from the first to the last bond: compress(ret_s=True) appends them in sweep order, so the working copy must be made
+    right-canonical (sweep left -> right) unconditionally before it is compressed; the original state is not touched"""
+    from ..syminterp import SymInterp, Sym, OpenSym, Blob
+    fi = src.func(MPS, "Mps.calc_bond_singular_values")
+    for lc, tr_ in ((True, False), (False, True), (False, False), (True, True)):
+        log = []
+        work = Sym("copy", to_right=tr_, is_left_canonical=lc, is_right_canonical=not lc)
+        work.__dict__["ensure_right_canonical"] = lambda *a, **k: log.append("right") or work
+        work.__dict__["ensure_left_canonical"] = lambda *a, **k: log.append("left") or work
+        work.__dict__["canonicalise"] = lambda *a, **k: log.append("canonicalise") or work
+        work.__dict__["check_left_canonical"] = lambda *a, **k: True
+        work.__dict__["check_right_canonical"] = lambda *a, **k: True
+        work.__dict__["compress"] = lambda *a, **k: log.append("compress") or (work, "s_array")
+        me = Sym("self", copy=lambda: work)
+        out = SymInterp(src, None, {"np": OpenSym("np", inf="inf")}).call_function(fi, [me])
+        ok = log == ["right", "compress"] and out == "s_array"
+        chk.ob("entropy-gauge", f"calc_bond_singular_values [copy left-canonical={lc}, to_right={tr_}]", ok, fi.where, log, ["right", "compress"], line=fi.node.lineno,
+               detail="the singular values come back in the order the compression sweep visits the bonds: only a sweep from the first site (right-canonical state) lists them first-to-last bond; "
+                      "skipping the gauge change for an already left-canonical copy returns the bond entropies in reversed order")
+
+
 def run(chk):
     src = chk.src
     chk.explanation = (
@@ -494,6 +517,8 @@ def run(chk):
     kernel_arg_rule(chk, src)
     freq_bound_rule(chk, src)
     rdm_rule(chk, src)
+    chk.rule("entropy-gauge", "bond singular values are computed from a right-canonical working copy in every gauge of the input (abstract run)", 4)
+    entropy_gauge_rule(chk, src)
     chk.rule("observable-cache", "per-model operator cache keys, electronic RDM assembly order, entropy formula (abstract runs)", 5)
     observable_rule(chk, src)
 
